@@ -30,6 +30,9 @@ func checkC11(c *Ctx, r *Report) {
 	c11CopyAfterDefaults(c, r, "C11.R4.copy-after-defaults")
 	sideStructOffsets(c, r, "C11.R4.digest-offsets", "the digest input ends before that field: the field is not covered by the MAC (a fudge or time that can be altered without invalidating the signature), and the MAC is not the RFC 8945 one")
 	borrow(c, r, c12R4, "C12.R4.pool-release", "C11.R3.verify-before-release", 2, "the request buffer is not returned to the pool before the TSIG on it has been verified", nil, "another datagram can be read into the octets while they are being verified: valid requests are refused and altered ones accepted")
+	r.rule("C11.R3.empty-keyring", 1, "the server selects TSIG verification on TsigSecret != nil, not on its size")
+	emptyKeyring(c, r, "C11.R3.empty-keyring")
+	borrow(c, r, func(c *Ctx, r *Report) { c15FreshTime(c, r, "C15.R4.fresh-time") }, "C15.R4.fresh-time", "C11.R5.fresh-time", 1, "each envelope's TSIG carries the time it is sent at", nil, "envelopes sent more than fudge seconds after the transfer began fail the receiver's time check although the MAC chain is intact")
 }
 
 func isUint64(v ssa.Value) bool {
@@ -190,6 +193,12 @@ func c11R2(c *Ctx, r *Report) {
 				problems = append(problems, "hmac.Equal does not compare Generate(msg, t) with the decoded t.MAC")
 			}
 			for i, a := range eq.Call.Args {
+				// through phis: `if n < len(b) { b = b[:n] }` re-slices on one edge only
+				for _, leaf := range phiLeaves(a) {
+					if sl, ok := leaf.(*ssa.Slice); ok && leaf != a && (sl.High != nil || sl.Low != nil) {
+						problems = append(problems, fmt.Sprintf("%s: operand %d of hmac.Equal is, on some path, a sub-slice of the MAC: a truncated MAC is accepted (RFC 8945 s.5.2.2.1 allows truncation only down to max(10, half the hash), which this comparison does not enforce)", c.pos(sl.Pos()), i))
+					}
+				}
 				if sl, ok := a.(*ssa.Slice); ok && (sl.High != nil || sl.Low != nil) {
 					problems = append(problems, fmt.Sprintf("%s: operand %d of hmac.Equal is a sub-slice of the MAC: only part of the MAC is compared (a shorter - even empty - MAC would verify)", c.pos(sl.Pos()), i))
 				}
